@@ -312,6 +312,17 @@ def forbidden_scan(prop=None):
     return hits
 
 
+def build_only(ctx):
+    """Incremental build of the property's Coq files (used by --no-proof runs, so that generated case
+    files are never compiled against stale .vo files when a dependency was rebuilt in between)."""
+    targets = ["Props/%s.vo" % ctx.prop]
+    pdir = os.path.join(COQ, ctx.prop)
+    if os.path.isdir(pdir):
+        targets += ["%s/%s" % (ctx.prop, f[:-2] + ".vo") for f in sorted(os.listdir(pdir)) if f.endswith(".v")]
+    rc, out = sh([os.path.join(COQ, "build.sh")] + targets, timeout=3600)
+    return rc == 0, out[-3000:]
+
+
 def proof_gate(ctx, thorough_chk=False):
     """Build the development, re-check the property file, collect Print Assumptions.
     Returns (ok, message)."""
